@@ -135,6 +135,7 @@ def run(ctx, full=False, label="rogue-server", only=None):
         hits += genuine_dfs(ctx, label + "-genuine")
         hits += rogue_content_dfs(ctx, label + "-content")
         hits += key_release_oracle(ctx, label + "-keys")
+        hits += refusal_oracle(ctx, label + "-refusals")
     return hits
 
 
@@ -417,6 +418,91 @@ def key_release_oracle(ctx, label="key-release"):
     return hits
 
 
+def _forge(tls, m):
+    """the same message with its authentication value (Finished verify_data / CertificateVerify
+    signature: the last byte) altered"""
+    return m[:-1] + bytes([m[-1] ^ 0x01])
+
+
+def refusal_oracle(ctx, label="refusals", only=None):
+    """"A refused message changes nothing": honest handshakes (certificate, client-auth, resumed) are
+    driven message by message; before every authentication message (server / client Finished, server /
+    client CertificateVerify) a FORGED copy is delivered first.  It must be refused with an alert, must
+    release no traffic secret and must leave the receiver exactly as it was — handshake state, key
+    schedule generation and secret, transcript hash, pending secrets, flags (tlsdrive.digest) — and the
+    genuine message delivered afterwards must still be accepted and the handshake must complete."""
+    from aioquic import tls
+    D.tap_extract()
+    store = S.ticket_store()
+    variants = [("certificate", lambda: D.Pair(D.client(), D.server())),
+                ("client-auth", lambda: S.full_pair(tickets=False)),
+                ("resumed", lambda: S.resumed_pair(store))]
+    POST = {tls.State.CLIENT_POST_HANDSHAKE, tls.State.SERVER_POST_HANDSHAKE}
+    n = hits = 0
+    for vname, mk in variants:
+        # which (receiver, message type) pairs get a forged copy first: one at a time
+        ref = mk()
+        targets = []
+        exc, out = D.feed(ref.c, b"")
+        queue = [("s", m) for m in D.split(out)]
+        while queue:
+            dst, m = queue.pop(0)
+            if m[0] in (FIN, CV):
+                targets.append((dst, m[0]))
+            exc, out = D.feed(ref.s if dst == "s" else ref.c, m)
+            if exc is not None:
+                break
+            queue += [("c" if dst == "s" else "s", x) for x in D.split(out)]
+        for target in targets:
+            if only is not None and (vname, target[0], target[1]) != tuple(only):
+                continue
+            p = mk()
+            keys = {"c": D.KeyTap(p.c), "s": D.KeyTap(p.s)}
+            exc, out = D.feed(p.c, b"")
+            queue = [("s", m) for m in D.split(out)]
+            problems, forged_hex, done_forge = [], None, False
+            while queue:
+                dst, m = queue.pop(0)
+                rcv = p.s if dst == "s" else p.c
+                if (dst, m[0]) == target and not done_forge:
+                    done_forge = True
+                    bad_m = _forge(tls, m)
+                    forged_hex = bad_m.hex()
+                    before, k0 = D.digest(rcv), len(keys[dst].calls)
+                    exc, _ = D.feed(rcv, bad_m)
+                    after = D.digest(rcv)
+                    if exc is None:
+                        problems.append("the forged message was ACCEPTED")
+                    elif not isinstance(exc, tls.Alert):
+                        problems.append(f"the forged message raised {type(exc).__name__}, not an alert")
+                    if len(keys[dst].calls) != k0:
+                        problems.append(f"traffic secrets were released while processing it: {keys[dst].names(k0)}")
+                    changed = D.digest_diff(before, after)
+                    if changed:
+                        problems.append(f"the refused message changed {changed}")
+                exc, out = D.feed(rcv, m)
+                if exc is not None:
+                    if done_forge:
+                        problems.append(f"the genuine message delivered after the refused forgery was refused: {exc!r}")
+                    break
+                queue += [("c" if dst == "s" else "s", x) for x in D.split(out)]
+            if done_forge and not problems and not (p.c.state in POST and p.s.state in POST):
+                problems.append(f"the handshake did not complete after the refused forgery ({p.c.state.name}, {p.s.state.name})")
+            n += 1
+            ctx.count((label, vname, target), True)
+            if problems:
+                hits += 1
+                who = "server" if target[0] == "s" else "client"
+                ctx.witness(
+                    f"{vname}: a forged message of type {target[1]} (authentication value altered) delivered to the {who} "
+                    f"in the right place of an otherwise genuine handshake: " + "; ".join(problems),
+                    {"kind": "refusal", "variant": vname, "receiver": target[0], "type": target[1], "forged_message": forged_hex,
+                     "problems": problems},
+                    {"oracle": "refused-message-changes-state", "receiver": who, "type": target[1]})
+    ctx.notes[label] = {"cases": n, "violations": hits}
+    return hits
+
+
 def replay(rep):
     """re-execute a recorded rogue / genuine-server flight on the current tree;
     returns the list of witnesses it produces again (empty = no longer failing)"""
@@ -426,6 +512,8 @@ def replay(rep):
         rogue_content_dfs(ctx, label="replay", only=(rep["offers"], rep["sh"], rep["ee"], rep["cert"], rep["flight"]))
     elif rep.get("kind") == "key-release":
         key_release_oracle(ctx, label="replay")
+    elif rep.get("kind") == "refusal":
+        refusal_oracle(ctx, label="replay", only=(rep["variant"], rep["receiver"], rep["type"]))
     elif rep.get("kind") == "rogue":
         run(ctx, label="replay", only=(rep["offers"], rep["psk"], rep["cert"], rep["flight"]))
     elif rep.get("kind") == "genuine":
